@@ -17,6 +17,12 @@ CHECKS = {
          "DESIGN.md section 6 C01"),
 }
 
+CHECKS["C02"] = ("bounded-exhaustive enumeration of values x counts 0..255 x carry x operand forms on the real Preprocessor+Interpreter, compared with a single-bit-step reference (explicit-state, depth 1)",
+    "All 256 byte values x all 256 counts x carry-in for the 8 shift/rotate spellings with immediate and CL counts (words: lattice in quick, all 65536 in thorough), all 2^16 byte pairs for AND/OR/XOR/TEST, all values for NOT, and every operand form of syntax.md; every post state compared in full with the reference.",
+    "DESIGN.md section 6 C02")
+CHECKS["C03"] = ("bounded-exhaustive enumeration of AX/DX:AX x operand (bytes exhaustive, words on boundary lattices + per-divisor overflow boundaries) and of AX x AF x CF for the adjusts, on the real pipeline, plus end-to-end divide-error programs through the real CLI binary",
+    "All AL x operand pairs x AH set for byte MUL/IMUL/DIV/IDIV, word lattice cubes and, for each divisor, the dividends around the quotient-overflow boundary, all 2^18 (AX,AF,CF) states for the 8 adjust instructions, every operand form including the implicit registers; outcome (NEXT vs INT 0), AX/DX, CF/OF and the frame are compared with the reference; 8 CLI programs check the divide-error message, line and termination.",
+    "DESIGN.md section 6 C03")
 NOT_YET = {}
 
 def main():
